@@ -539,10 +539,52 @@ def encItem : ViewItem → List String
       encBool a.secure, encBool a.httpOnly, toString a.sameSite]
   | .csrf none ctx => ["c", "<none>", encOptBytes ctx, "-", "-", "-", "-", "-", "-"]
 
-def encOut (ms : List Mw) (init : Option (Str × Str)) : StackOut → List String
+/-! ## the Set-Cookie lines on the wire (round 6)
+
+`c.SetCookie` ADDS a header line; a CSRF instance never removes or rewrites a line — not the lines
+the application wrote before it ran, not those of an outer instance whose cookie name merely
+looks like its own.  `wireCookies before l` = the names and values of the Set-Cookie lines after
+the stack ran, in order. -/
+
+def wireCookies (before : List (Str × Str)) : List (Mw × Pub) → List (Str × Str)
+  | [] => before
+  | (.csrf c, .csrf sc _ _) :: rest => wireCookies (before ++ [(c.cookieName, sc)]) rest
+  | _ :: rest => wireCookies before rest
+
+/-- the cookie name of the first CSRF instance of the stack -/
+def firstCookieName : List Mw → Str
+  | [] => []
+  | .csrf c :: _ => c.cookieName
+  | _ :: rest => firstCookieName rest
+
+/-- the application's own cookies in the harness (`app`): `session` and `<first cookie>_state` from a
+    middleware registered before the stack, `after` from the handler -/
+def appBefore (ms : List Mw) (app : Bool) : List (Str × Str) :=
+  if app then [(lit "session", lit "abc"), (firstCookieName ms ++ lit "_state", lit "keep")] else []
+
+def wireNames (ms : List Mw) (pubs : List Pub) (app : Bool) : List Str :=
+  ((wireCookies (appBefore ms app) (ms.zip pubs)) ++ (if app then [(lit "after", lit "1")] else [])).map (·.1)
+
+/-- lexicographic order on byte strings (the observation lists the names sorted: the order of
+    the header lines is not part of the tie) -/
+def strLe : Str → Str → Bool
+  | [], _ => true
+  | _ :: _, [] => false
+  | a :: as, b :: bs => a < b || (a == b && strLe as bs)
+
+def insertSorted (x : Str) : List Str → List Str
+  | [] => [x]
+  | y :: ys => if strLe x y then x :: y :: ys else y :: insertSorted x ys
+
+def sortNames : List Str → List Str
+  | [] => []
+  | x :: xs => insertSorted x (sortNames xs)
+
+def encOut (ms : List Mw) (init : Option (Str × Str)) (app : Bool) : StackOut → List String
   | .panic => ["2"]
   | .rejected s => ["0", toString s]
-  | .passed ps => "1" :: encList encItem (handlerView ms ps init)
+  | .passed ps => "1" :: (encList encItem (handlerView ms ps init) ++
+      encList (fun n => [encBytes n]) (sortNames (wireNames ms ps app)))
 
 /-- what the public `CreateExtractors(lookup)` returns for the configured string as it is:
     `x<number of extractors>` or `xerr` -/
@@ -551,20 +593,21 @@ def encExtractors (lookup : Str) : String :=
   | none => "xerr"
   | some es => "x" ++ toString es.length
 
-/-- line: `rawLookup preset? nMw mw* n (method cookies headers query form params multipart rnd)*`
+/-- line: `rawLookup preset? app nMw mw* n (method cookies headers query form params multipart rnd)*`
     → `x… cpanic` | `x… n (2 | 0 status | 1 k item*)*`; `preset?` = `0` | `1 key value`: what a
     middleware registered before the stack put into the context -/
 def runLine (line : String) : String :=
   match parseLine (do
       let raw ← bytes
       let init ← opt pPair
+      let app ← bool
       let ms ← list pMw
       let rs ← list pReq
-      pure (raw, init, ms, rs)) line with
+      pure (raw, init, app, ms, rs)) line with
   | none => "bad-op"
-  | some (raw, init, ms, rs) =>
+  | some (raw, init, app, ms, rs) =>
     match mkStack ms with
     | none => encExtractors raw ++ " cpanic"
-    | some st => encExtractors raw ++ " " ++ render (encList (fun r => encOut st init (serveStack st r r.rnd)) rs)
+    | some st => encExtractors raw ++ " " ++ render (encList (fun r => encOut st init app (serveStack st r r.rnd)) rs)
 
 end C12
